@@ -46,7 +46,7 @@ structure MsgInfo where
   v11 : Bool := true          -- version == HTTP/1.1
   vge11 : Bool := true        -- version >= HTTP/1.1
   noStream : Bool := false    -- HEAD / CONNECT: the test handler does not stream a body
-  expect : Nat := 0           -- 0 no Expect header, 1 `100-continue`, 2 anything else
+  expect : Nat := 0           -- 0 no Expect header, 1 `100-continue`, 2 anything else, 3 anything else that is not UTF-8 encodable
   chunks : Nat := 0           -- StreamReader.feed_data calls on the new payload within the same parser call
   eof : Bool := false
   exc : Bool := false
@@ -86,7 +86,7 @@ deriving Repr, DecidableEq
 inductive HOp where
   | sleep (ms : Nat)
   | read               -- await request.read()
-  | prepare            -- StreamResponse().prepare(request) + write(chunk)
+  | prepare (chunk : Bool)   -- StreamResponse().prepare(request) [+ write(chunk)]: the head is on the wire either way
   | write              -- stream.write(chunk)
   | fin (f : Fin)
 deriving Repr, DecidableEq
@@ -118,6 +118,8 @@ structure Payload where
   eof : Bool := true
   exc : Bool := false
   waiter : PWaiter := .none
+  /-- the parked reader's future was completed *with the exception* (`set_exception` found a waiter) -/
+  wakeExc : Bool := false
 deriving Repr, DecidableEq
 
 structure QMsg where
@@ -139,6 +141,7 @@ inductive HRes where
   | resp (keepAlive : Bool) (reset : Bool)
   | connErr        -- ConnectionError left `_handle_request`
   | cancelled      -- CancelledError left `_handle_request`
+  | crashed        -- another exception left `_handle_request` (building the error response itself failed)
 deriving Repr, DecidableEq
 
 inductive HPc where
@@ -219,13 +222,14 @@ def setP (s : St) (i : Nat) (p : Payload) : St := { s with payloads := s.payload
 
 def pushCb (s : St) (c : Cb) : St := { s with ready := s.ready ++ [c] }
 
-/-- wake whoever is parked on payload `i` -/
-def wakeP (s : St) (i : Nat) : St :=
+/-- wake whoever is parked on payload `i`; `byExc`: the waiter future gets the exception (no data or
+eof reached the stream before it in this parser call) -/
+def wakeP (s : St) (i : Nat) (byExc : Bool := false) : St :=
   let p := getP s i
   match p.waiter with
   | .none => s
-  | .handler => pushCb (setP s i { p with waiter := .none }) .handlerWake
-  | .start => pushCb (setP s i { p with waiter := .none }) .startWake
+  | .handler => pushCb (setP s i { p with waiter := .none, wakeExc := byExc }) .handlerWake
+  | .start => pushCb (setP s i { p with waiter := .none, wakeExc := byExc }) .startWake
 
 /-- `BaseProtocol.resume_reading(resume_parser=False)` (called by `StreamReader.feed_eof`) -/
 def protoResumeNoParse (s : St) : St :=
@@ -238,7 +242,7 @@ def payloadEvent (s : St) (i chunks : Nat) (eof exc : Bool) : St :=
   if p.empty then s else
   let s := setP s i { p with chunks := p.chunks + chunks, eof := p.eof || eof, exc := p.exc || exc }
   let s := if eof then protoResumeNoParse s else s
-  if chunks > 0 || eof || exc then wakeP s i else s
+  if chunks > 0 || eof || exc then wakeP s i (exc && chunks == 0 && !eof) else s
 
 /-- `_pause_msg_queue_reading` -/
 def pauseMsgQ (s : St) : St :=
@@ -443,14 +447,15 @@ def runProg : Nat → St → Prog → St
       else if p.chunks > 0 then runProg fuel (drainChunks s c.idx p.chunks) (.read :: rest)
       else if p.eof then runProg fuel s rest
       else if !s.tPresent then handleError s c 500
-      else { setP s c.idx { p with waiter := .handler } with hpc := .reading rest }
-    | .prepare :: rest =>
+      else { setP s c.idx { p with waiter := .handler, wakeExc := false } with hpc := .reading rest }
+    | .prepare withChunk :: rest =>
       if c.info.noStream then runProg fuel s rest else
       let s := updCur s (fun c => { c with outStarted := true })
       if !writable s then finishH s .connErr    -- reset error → handle_error → "sent already"
       else
         let cd := !c.info.vge11
-        let s := emit (emit s (.hdr c.idx 200 cd)) (.chunk c.idx)
+        let s := emit s (.hdr c.idx 200 cd)
+        let s := if withChunk then emit s (.chunk c.idx) else s
         -- `_prepare_headers` clears only its *local* keep_alive for a close-delimited body: `resp.keep_alive` stays
         let s := updCur s (fun c => { c with streamOpen := true, streamKa := !c.info.shouldClose })
         runProg fuel s rest
@@ -485,6 +490,9 @@ def handlerStart (fuel : Nat) (s : St) (m : QMsg) : St :=
         let s := emit s (.interim m.idx)
         let prog := s.progs.getD s.invocations [.fin .ok]
         runProg fuel { s with invocations := s.invocations + 1 } prog
+    else if m.info.expect == 3 then
+      -- `Response(text=exc.text)` for the 417 raises UnicodeEncodeError inside `except HTTPException`
+      finishH s .crashed
     else finishFresh s c 417 (!m.info.shouldClose)
   else
     let prog := s.progs.getD s.invocations [.fin .ok]
@@ -536,6 +544,7 @@ def startRun : Nat → St → SCont → St
       match r with
       | .connErr => startRun fuel s .epilogue
       | .cancelled => { forceClose s with spc := .done, cur := none }
+      | .crashed => startRun fuel (forceClose s) .decide   -- `except Exception: log; force_close()`
       | .resp ka reset =>
         if reset then startRun fuel s .epilogue else
         let s := { s with keepalive := ka }
@@ -558,7 +567,7 @@ def startRun : Nat → St → SCont → St
           else if p.chunks > 0 then startRun fuel (drainChunks (cancelLinger s) c.idx p.chunks) (.linger endT)
           else if !s.tPresent then startRun fuel (forceClose (cancelLinger s)) .decide
           else
-            let s := setP s c.idx { p with waiter := .start }
+            let s := setP s c.idx { p with waiter := .start, wakeExc := false }
             let s := match s.lingerTimer with
               | some _ => s
               | none => { s with lingerTimer := some (ceilDeadline s.cfg.ups s.now (endT - s.now), s.seq), seq := s.seq + 1 }
@@ -615,7 +624,7 @@ def runCb (s : St) (c : Cb) : St :=
         let p := getP s c.idx
         let s := setP s c.idx { p with waiter := .none }
         -- resumed inside `readany()`: unless the timeout struck, the chunks present now are popped first
-        let s := if !s.lingerTimedOut && p.chunks > 0 then drainChunks (cancelLinger s) c.idx p.chunks else s
+        let s := if !s.lingerTimedOut && p.chunks > 0 && !p.wakeExc then drainChunks (cancelLinger s) c.idx p.chunks else s
         startRun (fuelOf s) s (.linger endT)
       | none => s
     | _ => s
@@ -629,7 +638,7 @@ def runCb (s : St) (c : Cb) : St :=
           let p := getP s c.idx
           -- resumed inside `readany()`: the chunks present now are popped before anything is re-checked
           let s := setP s c.idx { p with waiter := .none }
-          let s := if p.chunks > 0 then drainChunks s c.idx p.chunks else s
+          let s := if p.chunks > 0 && !p.wakeExc then drainChunks s c.idx p.chunks else s
           some (runProg (fuelOf s) s (.read :: rest))
         | none => none
       | _ => none
